@@ -157,7 +157,7 @@ def build_shim():
         with open(tmp_c, "w") as f:
             f.write(SHIM_C)
         tmp = so + ".%d" % os.getpid()
-        util.sh(["gcc", "-O2", "-shared", "-fPIC", "-o", tmp, "-x", "c", tmp_c, "-ldl"], timeout=120)
+        util.sh(["gcc", "-O2", "-shared", "-fPIC", "-o", tmp, "-x", "c", tmp_c, "-ldl"], timeout=600)
         os.replace(tmp, so)
         os.replace(tmp_c, src)
     return so
